@@ -151,6 +151,29 @@ def explore(ctx):
             ctx.sample(dict(value=repr(v)[:200], text=text[:300]))
         if text != text2:
             ctx.violation('two dumps of the same object differ', dict(desc, key='nondeterministic', text=text[:400]))
+        if made % 4 == 0:
+            # the JSON flavour of the dump functions: repeated dumps give identical text, also with a
+            # dump that fails part-way (a shared sub-object: "Aliases are not supported by JSON") in between
+            try:
+                dj = yatiml.dumps_json_function(*model.registered)
+                j1 = dj(v)
+            except Exception:  # noqa  (dates as keys, non-finite floats ...: C07's business)
+                j1 = None
+            if j1 is not None:
+                shared = [1]
+                try:
+                    dj([shared, [shared]])
+                except Exception:  # noqa
+                    ctx.count('json_dump_aborted')
+                try:
+                    j2 = dj(v)
+                    j3 = yatiml.dumps_json_function(*model.registered)(v)
+                except Exception as e:  # noqa
+                    j2 = j3 = 'raises ' + type(e).__name__
+                ctx.count('json_repeat_checked')
+                if not (j1 == j2 == j3):
+                    ctx.violation('repeated JSON dumps of the same object differ after a failed dump: {!r} then {!r}'.format(
+                        j1[:100], j2[:100]), dict(desc, key='nondeterministic-json', text=j1[:300], again=j2[:300]))
         if CM.val_sexp(v, model) != before:
             ctx.violation('dumping modified the object', dict(desc, key='mutated'))
         try:
